@@ -319,6 +319,15 @@ example :
     ((runSeq ⟨1000, 52⟩ init (exHistory ++ [.cleanup])).map fun r => (getSize r.1, liveSum r.1.heap)) =
       some (704, 704) := by decide
 
+/-- hypotheses of `c18_accounting` / `c18_bounded` with loads in flight: thread 0 is still loading key 9 and thread 1
+is blocked on it while three entries (1056 bytes > limit 1000) are cleaned down to 352 -/
+example :
+    ((run ⟨1000, 52⟩ init [.newCache, .newCache, .get 2 0 1, .finish 2 (.ok 11 300), .get 2 0 2, .finish 2 (.ok 12 300),
+        .rotate, .get 0 1 9, .get 1 1 9, .get 2 1 1, .finish 2 (.ok 13 300)]).bind fun r =>
+      (run ⟨1000, 52⟩ r.1 (cleanupLabels ⟨1000, 52⟩ r.1)).map fun r' =>
+        ([getSize r.1, getSize r'.1, liveSum r'.1.heap], [r.1.todo, r'.1.todo], [r.1.pc 0, r.1.pc 1])) =
+      some ([1056, 352, 352], [none, none], [.loading 1 9 2, .waiting 1 9 2]) := by decide
+
 /-- an interleaving: thread 0 loads key 7, thread 1 blocks on it, thread 0 saves 99, thread 1 wakes up with 99 -/
 example :
     ((run ⟨1000, 52⟩ init [.newCache, .get 0 0 7, .get 1 0 7, .finish 0 (.ok 99 10), .wake 1]).map (·.2)) =
